@@ -30,6 +30,44 @@ Proof. exact @run_handler_stops. Qed.
 Theorem C20_exceptions_are_known_codes : ERRORS_KNOWN 108 = true /\ ERRORS_KNOWN 252 = true /\ ERRORS_KNOWN 160 = true.
 Proof. exact exceptions_are_known_codes. Qed.
 
+(* the position of the abort within the reply script: after ANY number of replies that the loop passes over *)
+Theorem C20_abort_at_any_position : forall (A B : Type) (h : A -> N -> value -> option (cres B) * A) fin pre acc i v rest res,
+  (forall acc0 j u, In (j, u) pre -> fst (h acc0 j u) = None) -> (forall acc0, fst (h acc0 i v) = Some res) ->
+  run_handler h fin acc (pre ++ (i, v) :: rest) = res.
+Proof. exact @abort_at_any_position. Qed.
+
+(* ... for the calls with a documented translation: reservation (0xFC -> PIN required), card reading (0x6C -> no card),
+   end of day (0xA0 tolerated); and for commit / cancel / initialisation (no exception) *)
+Theorem C20_begin_abort_anywhere : forall c ixa ixs rest its tail,
+  (forall acc0 j u, In (j, u) its -> fst (h_begin ixa ixs acc0 j u) = None) ->
+  exists e, run_handler (h_begin ixa ixs) f_begin None (its ++ (ixa, VRec (VInt c :: rest)) :: tail) = RErr e /\
+            (c <> 252 \/ ERRORS_KNOWN c = false -> identifies e c) /\ (c = 252 -> ERRORS_KNOWN c = true -> e = ENeedsPin).
+Proof. exact abort_begin_anywhere. Qed.
+Theorem C20_read_card_abort_anywhere : forall c ixa ixs rest its tail,
+  (forall acc0 j u, In (j, u) its -> fst (h_read_card ixa ixs acc0 j u) = None) ->
+  exists e, run_handler (h_read_card ixa ixs) f_read_card None (its ++ (ixa, VRec (VInt c :: rest)) :: tail) = RErr e /\
+            (c <> 108 \/ ERRORS_KNOWN c = false -> identifies e c) /\ (c = 108 -> ERRORS_KNOWN c = true -> e = ENoCard).
+Proof. exact abort_read_card_anywhere. Qed.
+Theorem C20_end_of_day_abort_anywhere : forall c ixc ixa rest its tail, ixa <> ixc ->
+  (forall acc0 j u, In (j, u) its -> fst (h_eod ixc ixa acc0 j u) = None) ->
+  run_handler (h_eod ixc ixa) (fun _ => RErr EIncomplete) tt (its ++ (ixa, VRec (VInt c :: rest)) :: tail) =
+  if c =? 160 then ROk tt else RErr (EAborted c).
+Proof. exact abort_eod_anywhere. Qed.
+Theorem C20_commit_abort_anywhere : forall c ixa ixs ixc rest its tail, ixa <> ixc ->
+  (forall acc0 j u, In (j, u) its -> fst (h_commit ixa ixs acc0 j u) = None) ->
+  run_handler (h_commit ixa ixs) (fun a => ROk a) None (its ++ (ixa, VRec (VInt c :: rest)) :: tail) = RErr (EAborted c).
+Proof. exact abort_surfaces_anywhere. Qed.
+Theorem C20_cancel_abort_anywhere : forall c ixc ixa rest its tail, ixa <> ixc ->
+  (forall acc0 j u, In (j, u) its -> fst (h_until_completion ixc ixa acc0 j u) = None) ->
+  run_handler (h_until_completion ixc ixa) (fun _ => RErr EIncomplete) tt (its ++ (ixa, VRec (VInt c :: rest)) :: tail) = RErr (EAborted c).
+Proof. exact abort_until_completion_anywhere. Qed.
+
+Print Assumptions C20_abort_at_any_position.
+Print Assumptions C20_begin_abort_anywhere.
+Print Assumptions C20_read_card_abort_anywhere.
+Print Assumptions C20_end_of_day_abort_anywhere.
+Print Assumptions C20_commit_abort_anywhere.
+Print Assumptions C20_cancel_abort_anywhere.
 Print Assumptions C20_abort_surfaces.
 Print Assumptions C20_abort_ends_the_loop.
 Print Assumptions C20_exceptions_are_known_codes.
